@@ -73,6 +73,9 @@ def generate(seed, tier):
     world = gen_world(rng, prof)
     while len(world['books']) < 2:
         world['books'].append([[2, 2]])
+    if sw.chance(.4):
+        from ..world import add_satellite_name_chain
+        add_satellite_name_chain(Rng(seed, 'satname'), world)
     fr = Rng(seed, 'faults')
     # cells that combine SEVERAL faultable items, each behind its own
     # interceptor (an item that resolves must not be lost because a sibling
